@@ -3,7 +3,7 @@
    Codec/FrameInspectProofs.v).  Each theorem is followed by Print Assumptions. *)
 From Coq Require Import ZArith List Bool.
 From ZV.Gen Require Gen_Tables.
-From ZV.Mem Require Import CompressBound CompressBoundProofs CompressCalls CompressCallsProofs CompressSplit CompressSplitProofs.
+From ZV.Mem Require Import CompressBound CompressBoundProofs CompressCalls CompressCallsProofs CompressSplit CompressSplitProofs CompressCallsKb.
 From ZV.Codec Require Import FrameInspect FrameInspectProofs FrameInspectRobust.
 Import ListNotations.
 Local Open Scope Z_scope.
@@ -393,3 +393,22 @@ Theorem splitter_hypotheses_inhabited :
   (forall i : nat, bc_contract ((fun _ => pc_raw) i)) /\ (forall (i : nat) len, 0 < len -> cut_ok ((fun _ l => [l]) i len) len).
 Proof. exact splitter_contracts_satisfiable. Qed.
 Print Assumptions splitter_hypotheses_inhabited.
+
+(* theorem 13 (any history of ZSTD_compressContinue calls closed by ZSTD_compressEnd into one shared buffer) under the
+   WEAK block contract: the buffer must hold header + sum(chunk + 3 * kb_blocks(chunk)) + epilogue + the savings in hand *)
+Theorem buffer_less_history_sufficient_weak_contract : forall fuel bsMax hs chk calls st cap written,
+  calls <> [] ->
+  Forall (call_ok_kb fuel bsMax) calls -> 0 < bsMax <= KB128 -> 0 <= hs <= FHS_MAX ->
+  cs_stage st <> StEnding ->
+  (cs_stage st = StInit -> FHS_MAX <= cap) ->
+  hdr_of st hs + need_kb calls + epilogue_room calls chk + Z.max (savings_of st) 0 <= cap ->
+  exists W cap' st',
+    compress_calls fuel bsMax hs chk st calls cap written = CDone W cap' st' /\
+    cap' = cap - (W - written) /\ 0 <= cap' /\ written < W /\
+    W <= written + Z.max (savings_of st) 0 + hdr_of st hs + need_kb calls + epilogue_cost calls chk.
+Proof. exact compress_calls_succeed_kb. Qed.
+Print Assumptions buffer_less_history_sufficient_weak_contract.
+
+Theorem weak_history_hypotheses_inhabited : Forall (call_ok_kb (Z.to_nat 200000) 131072) [raw_call 100000; raw_call 5].
+Proof. exact calls_kb_satisfiable. Qed.
+Print Assumptions weak_history_hypotheses_inhabited.
